@@ -113,10 +113,27 @@ func (fr *Frame) callCallback(ins *ssa.Call, c *ssa.CallCommon, fv Val, args []V
 					}
 				}
 			}
-			st.ghosts[g] = TVal{"true", tBool}
+			if !ex.eng.cs.CallbackFalse[g] {
+				st.ghosts[g] = TVal{"true", tBool}
+			}
 		}
 	}
-	return fr.freshResults(c.Signature(), st)
+	res := fr.freshResults(c.Signature(), st)
+	// answer-recording ghosts: g' = g || !answer, for callbacks with a single bool result
+	if len(res) == 1 && res[0].typ != nil {
+		if b, ok := res[0].typ.Underlying().(*types.Basic); ok && b.Kind() == types.Bool {
+			for g := range ex.eng.cs.CallbackFalse {
+				if ex.listsGhost(g) {
+					old := st.ghosts[g].t
+					if old == "" {
+						old = "false"
+					}
+					st.ghosts[g] = TVal{or(old, not(res[0].t)), tBool}
+				}
+			}
+		}
+	}
+	return res
 }
 
 func (fr *Frame) callInvoke(ins *ssa.Call, c *ssa.CallCommon, st *State) []Val {
